@@ -123,6 +123,10 @@ def run(ctx) -> None:
                 else:
                     first = render(t.elts[0])
                     if how == "replace":
+                        pos = {"isinstance(OLD, tuple)": False, "OLD.is_moved_from": True, "OLD.cookie == REC.cookie": True}
+                        bad = [a for a, want in pos.items() if c.get(a) is not want and c.get(a.replace("OLD.cookie == REC.cookie", "REC.cookie == OLD.cookie")) is not want]
+                        if bad:
+                            ok, msg = False, f"the in-batch element paired with the record does not satisfy the partner predicate on this path ({bad} not established): an unrelated event is swallowed into a pair"
                         if not (first == "OLD" and e.extra.get("key") == "IDX"):
                             ok, msg = False, f"in-batch partner {first} is not replaced in place at its own index ({e.extra.get('key')}): it would also be delivered alone"
                     else:
@@ -255,6 +259,7 @@ VARIANTS = [
     dict(name="B delay nothing", expect="fire", rule="C08/put-exactly-once", edits=[(IB, "self._queue.put(inotify_event, delay=delay)", "self._queue.put(inotify_event)")]),
     dict(name="B partner predicate without cookie", expect="fire", rule="C08/partner-predicate", edits=[(IB, "return not isinstance(event, tuple) and event.is_moved_from and event.cookie == inotify_event.cookie", "return not isinstance(event, tuple) and event.is_moved_from")]),
     dict(name="B partner predicate accepts tuples", expect="fire", rule="C08/partner-predicate", edits=[(IB, "return not isinstance(event, tuple) and event.is_moved_from and event.cookie == inotify_event.cookie", "return getattr(event, 'is_moved_from', False) and event.cookie == inotify_event.cookie")]),
+    dict(name="B pairs with the first non-matching element", expect="fire", rule="C08/placed-exactly-once", edits=[(IB, "                    if matching_from_event(event):\n                        grouped[index]", "                    if not matching_from_event(event):\n                        grouped[index]")]),
     dict(name="B put twice", expect="fire", rule="C08/put-exactly-once", edits=[(IB, "                self._queue.put(inotify_event, delay=delay)\n", "                self._queue.put(inotify_event, delay=delay)\n                if delay:\n                    self._queue.put(inotify_event, delay=delay)\n")]),
     dict(name="B in-batch partner appended instead of replaced", expect="fire", rule="C08/placed-exactly-once", edits=[(IB, "                        grouped[index] = (event, inotify_event)  # type: ignore[assignment]", "                        grouped.append((event, inotify_event))  # type: ignore[arg-type]")]),
     dict(name="B pair halves swapped", expect="fire", rule="C08/placed-exactly-once", edits=[(IB, "grouped.append((from_event, inotify_event))", "grouped.append((inotify_event, from_event))")]),
